@@ -92,12 +92,14 @@ func c03Run(j *rt.Job, seed uint64, r *rt.Rec) {
 			// a key from fresh randomness: regenerate from its stored seed and use that seed for replay
 			nd, err := dilithium.New()
 			if err != nil {
-				r.Inconclusive("dilithium.New failed: " + err.Error())
-				return
+				// not this property's business (C09 judges key creation from fresh randomness): use a seeded key
+				r.Observe("info", "dilithium.New returned an error; seeded key used instead: "+err.Error())
+				d = dilLibKey(s)
+			} else {
+				s = nd.GetSeed()
+				d = nd
+				r.Count("keys_from_New", 1)
 			}
-			s = nd.GetSeed()
-			d = nd
-			r.Count("keys_from_New", 1)
 		} else {
 			d = dilLibKey(s)
 		}
